@@ -655,6 +655,16 @@ def fwd_kinematics(m: Model, d: Data):
     sleep.update_sleep_trees(m, d)
 
 
+@wp.kernel
+def _max_ncollision(
+  # In:
+  ncollision_prev_in: wp.array[int],
+  # Data out:
+  ncollision_out: wp.array[int],
+):
+  ncollision_out[0] = wp.max(ncollision_out[0], ncollision_prev_in[0])
+
+
 @event_scope
 def fwd_position(m: Model, d: Data, factorize: bool = True):
   """Position-dependent computations.
@@ -681,10 +691,14 @@ def fwd_position(m: Model, d: Data, factorize: bool = True):
       # snapshot the awake state pass 1 used, before update_sleep overwrites it. a body is "newly
       # awakened" if it was asleep here but awake after update_sleep below.
       awake_prev = wp.clone(d.body_awake)
+      ncollision_prev = wp.clone(d.ncollision)
       sleep.update_sleep(m, d)
       # pass 2: passing awake_prev runs the incremental pass, emitting only pairs involving a
       # newly-awakened body and appending them to the pass-1 buffer.
       collision_driver.collision(m, d, awake_prev=awake_prev)
+      # pass 2 restarts the broadphase pair counter: keep the larger count of the two passes so
+      # that a broadphase overflow of pass 1 is still reported at the end of the step
+      wp.launch(_max_ncollision, dim=1, inputs=[ncollision_prev], outputs=[d.ncollision])
     else:
       collision_driver.collision(m, d)
 
